@@ -97,6 +97,8 @@ func runC17(c *Ctx) {
 					nd = append(nd, unhx(n))
 				}
 				containsCase(c, fs, t[1], unhx(t[2]), nd)
+			case "wfile", "wreader", "swreader":
+				runIOLine(c, t) // c17b.go
 			}
 		}
 		return
@@ -165,6 +167,8 @@ func runC17(c *Ctx) {
 		}
 		containsCase(c, fs, fmt.Sprintf("r%d", i), content, nd)
 	}
+	genC17b(c)
+	runC17OS(c) // WriteFile / WriteReader / SafeWriteReader + ReadFile (c17b.go)
 }
 
 func (r *Rng) shuffle(xs [][]byte) {
